@@ -139,6 +139,26 @@ impl Prop for C15Prop {
                 }
             }
         }
+        // a seventh receiver: decode_streaming over an adapter whose size hint is only an upper bound
+        if violation.is_none() {
+            for buf in [BufKind::Vec, BufKind::Arr(cap)] {
+                let obs = fe::drive_streaming_loose_kind(buf, stream, l.extra_polls);
+                let label = format!("decode_streaming over a filtered iterator / {:?}", buf);
+                match (normalise(Fe::Streaming, &obs), &reference) {
+                    (Ok(n), Some((rl, rn))) if *rn != n => {
+                        violation = Some(Violation::oracle(
+                            "C15.replica-disagreement",
+                            format!("{} reported {} leftover {:?} but {} reported {} leftover {:?}", rl, show_items(&rn.results), rn.leftover, label, show_items(&n.results), n.leftover),
+                        ));
+                    }
+                    (Err(e), _) => violation = Some(Violation::oracle("C15.malformed-log", format!("{}: {}", label, e))),
+                    _ => {}
+                }
+                if violation.is_some() {
+                    break;
+                }
+            }
+        }
         let (nontrivial, steps) = match &reference {
             Some((_, n)) => {
                 if n.leftover.unwrap_or(0) > 0 {
